@@ -15,11 +15,17 @@ import (
 	storetypes "cosmossdk.io/store/types"
 	cmtproto "github.com/cometbft/cometbft/proto/tendermint/types"
 	dbm "github.com/cosmos/cosmos-db"
+	"github.com/cosmos/cosmos-sdk/client"
 	"github.com/cosmos/cosmos-sdk/codec"
 	addresscodec "github.com/cosmos/cosmos-sdk/codec/address"
 	codectypes "github.com/cosmos/cosmos-sdk/codec/types"
+	cryptocodec "github.com/cosmos/cosmos-sdk/crypto/codec"
+	"github.com/cosmos/cosmos-sdk/crypto/keys/secp256k1"
+	cryptotypes "github.com/cosmos/cosmos-sdk/crypto/types"
 	"github.com/cosmos/cosmos-sdk/runtime"
 	sdk "github.com/cosmos/cosmos-sdk/types"
+	authtx "github.com/cosmos/cosmos-sdk/x/auth/tx"
+	authtypes "github.com/cosmos/cosmos-sdk/x/auth/types"
 )
 
 type nativeEnv struct {
@@ -95,4 +101,19 @@ func (h *H) TryTx(ctx sdk.Context, f func(sdk.Context) error) error {
 func (h *H) DryRun(ctx sdk.Context, f func(sdk.Context) error) error {
 	cctx, _ := ctx.CacheContext()
 	return f(cctx)
+}
+
+// ProposerEnv is the proposer-side signing environment of PrepareProposal: the validator's
+// key, its account and the transaction config. Natively these are the real SDK objects
+// (secp256k1 key, BaseAccount, auth tx config with direct sign mode); under the engine they
+// are opaque stubs - transaction signing and encoding are not the subject of any property.
+func (h *H) ProposerEnv() (cryptotypes.PrivKey, sdk.AccountI, client.TxConfig) {
+	seed := make([]byte, 32)
+	seed[0], seed[31] = 0x42, 0x01
+	priv := &secp256k1.PrivKey{Key: seed}
+	reg := codectypes.NewInterfaceRegistry()
+	cryptocodec.RegisterInterfaces(reg)
+	cdc := codec.NewProtoCodec(reg)
+	acc := authtypes.NewBaseAccount(sdk.AccAddress(priv.PubKey().Address()), priv.PubKey(), 7, 3)
+	return priv, acc, authtx.NewTxConfig(cdc, authtx.DefaultSignModes)
 }
